@@ -165,6 +165,26 @@ def run_history(case, rec, which, cap=400):
             if pred is None:
                 rec.exclude('grade_too_large')
                 continue
+        if which == 'C02' and op[0] in ('iso', 'aniso'):
+            # marking-driven bisections: the requested set is the bulk set; outcome == model closure (oracle of C06)
+            from vlib.checks import c06
+            if 6 * len(live.mesh.leaf_elements) > cap * 2:
+                rec.exclude('size_cap')
+                continue
+            sub_rec = type(rec)()
+            recipe = {'r': 'cyc', 'vals': op[2]['vals'], 'off': op[2].get('off', 0)}
+            ok = c06.mark_step(live, op[0], float(op[1]), recipe, sub_rec, case, n_op)
+            rec.inconclusive += sub_rec.inconclusive
+            for v in sub_rec.violations:
+                rec.violation(v['bucket'].replace('C06/', 'C02/marking/'), v['detail'], case)
+            kinds.add(op[0])
+            rec.cls('op_' + op[0])
+            rec.add('transitions_random')
+            if not ok:
+                return
+            if step_checks(live, which, {'mode': 'lockstep'}, None, rec, case, op[0]):
+                return
+            continue
         try:
             info = apply_op(live, op, cap=cap)
         except Exception as ex:
